@@ -215,3 +215,63 @@ func cfgWithDefaultBookmark(e *core.Env) string {
 	bmCfgOnce[e.Dir] = dir
 	return dir
 }
+
+// straddleText builds a conforming text in which multi-byte characters (2, 3 and 4 bytes long) sit across the byte
+// offsets that buffered readers and chunked algorithms like to cut at (4 KiB, 8 KiB, 32 KiB, 64 KiB, 128 KiB, 1 MiB - up to
+// maxBoundary): a reader that validates, decodes or splits chunk by chunk sees half a character on either side.
+func straddleText(r *core.Rand, maxBoundary int) string {
+	var sb strings.Builder
+	day := ref.DaysFromCivil(2034, 1, 1)
+	n := 0
+	rec := func(summary string) {
+		if n > 0 {
+			sb.WriteString("\n")
+		}
+		sb.WriteString(ref.FormatDate(ref.DateFromDays(day+n), true) + "\n")
+		if summary != "" {
+			sb.WriteString(summary + "\n")
+		}
+		sb.WriteString("    " + strconv.Itoa(1+n%9) + "h café\n")
+		n++
+	}
+	chars := []string{"ä", "€", "😀", "é", "日"}
+	for _, b := range []int{4096, 8192, 32768, 65536, 131072, 1048576} {
+		if b > maxBoundary {
+			break
+		}
+		for sb.Len() < b-400 {
+			rec("")
+		}
+		ch := chars[r.Intn(len(chars))]
+		// headline of the straddling record: "\n" + 10 bytes + "\n"; the summary line is filled so that the character starts k bytes before b
+		k := 1 + r.Intn(len(ch)-1)
+		start := sb.Len() + 1 + 10 + 1
+		fill := b - k - start
+		if fill < 1 {
+			continue
+		}
+		rec(strings.Repeat("x", fill) + ch + " straddles " + strconv.Itoa(b))
+	}
+	rec("")
+	return sb.String()
+}
+
+// fileJSON gives the text to the real binary as a file argument (`klog json FILE`): the path through klog's own file reader.
+func fileJSON(e *core.Env, text string) (records []any, nerr int, recordsNull bool, crash string, ok bool) {
+	if e.KlogBin == "" {
+		return nil, 0, false, "", false
+	}
+	f := writeFile(e.Dir, "as-file-argument.klg", text)
+	b := obs.RunBin(obs.BinEnv{Bin: e.KlogBin, ConfigDir: e.Dir + "/bincfg"}, "json", f)
+	if b.Err != nil {
+		return nil, 0, false, "", false
+	}
+	if obs.LooksLikeGoCrash(b.Stdout + b.Stderr) {
+		return nil, 0, false, trunc(b.Stderr+b.Stdout, 600), true
+	}
+	recs, errsArr, rnull, _, jerr := decodeJSONEnvelope(b.Stdout)
+	if jerr != nil {
+		return nil, 0, false, "undecodable output: " + trunc(b.Stdout, 300), true
+	}
+	return recs, len(errsArr), rnull, "", true
+}
